@@ -677,6 +677,7 @@ func runC15(c *Ctx) {
 	ruleReplayKind(c, "STATUS")
 	ruleRelayErrorKept(c, "STATUS")
 	ruleAdapterStatus(c, "WIRING")
+	ruleCountsOne(c, "WIRING")
 	ruleWiring(c, a)
 	rulePassthru(c, "PASSTHRU")
 	ruleLoopVar(c, "ONCE", "service")
